@@ -8,7 +8,7 @@ import numpy
 from epsie.chain import Chain
 from epsie import proposals as P
 
-from .. import core, adapt
+from .. import core, adapt, adaptm
 from ..trace import GenTap
 
 ASSUMPTIONS = [
@@ -61,6 +61,28 @@ def admissible(kind, s):
         if not (fin(s['kappa']) and s['kappa'] > 0 and fin(s['norm']) and s['norm'] > 0):
             bad.append('concentration / normalisation not finite and positive: kappa=%r norm=%r' % (s['kappa'], s['norm']))
     return bad
+
+
+def madmissible(kind, s):
+    """finite state; covariance / second moment positive semidefinite; componentwise widths positive"""
+    def finite(v):
+        return bool(numpy.all(numpy.isfinite(numpy.asarray(v, dtype=float))))
+    for q in ('mean', 'mu', 'ucov', 'cov', 'loglam', 'std', 'eigvals'):
+        if q in s and not finite(s[q]):
+            return '%s not finite: %s' % (q, s[q])
+    for q in ('ucov', 'cov'):
+        if q in s and numpy.asarray(s[q]).ndim == 2:
+            m = numpy.asarray(s[q], dtype=float)
+            w = numpy.linalg.eigvalsh((m + m.T) / 2)
+            if abs(m - m.T).max() > 1e-9 * max(1e-300, abs(m).max()):
+                return '%s not symmetric: %s' % (q, s[q])
+            if w.min() < -1e-9 * max(abs(w).max(), 1e-300):
+                return '%s not positive semidefinite (eigenvalues %s): %s' % (q, list(w), s[q])
+    if kind == 'at_cw' and not all(x > 0 for x in s['std'] + s['ucov']):
+        return 'width / second moment not positive: std=%s ucov=%s' % (s['std'], s['ucov'])
+    if kind == 'eigc' and not all(x >= -1e-12 * max(s['eigvals']) for x in s['eigvals']):
+        return 'jump scale (eigenvalue) negative: %s' % (s['eigvals'],)
+    return None
 
 
 class FlatBox:
@@ -211,7 +233,9 @@ def run(seed, tier):
     out = core.Outcome()
     out.rule = ("(a) all 18 adaptive classes driven through real prop.update() with the extremal histories (always / never accepted) and "
                 "alternating / random ones for durations 30, 300, 3000 (30000 thorough): every scale attribute must stay finite and "
-                "admissible and no update may raise; every 7th update is also a Coq case; (b) real chains on flat and sharply peaked "
+                "admissible and no update may raise; every 7th update is also a Coq case; (a') the componentwise / full-covariance "
+                "Andrieu-Thoms and eigenvector classes likewise with their matrices checked finite, symmetric and positive semidefinite after "
+                "every update and against AdaptM.v; (b) real chains on flat and sharply peaked "
                 "bounded targets, betas 0/1e-3/1, start at centre and at the faces, counting generator draws per jump (budget 2e4). "
                 "non-trivial = a run of >= 300 adapted steps under an extremal history; distinct = distinct (class, duration, history)")
     witnesses(out)
@@ -268,6 +292,41 @@ def run(seed, tier):
                     out.samples.append(desc)
         if len(out.violations) > 6:
             break
+    # (a') matrix-valued state: positive semidefinite covariance through every update (AdaptM.v)
+    mterms, mmeta = [], []
+    for name in sorted(adaptm.MFAMILIES):
+        for T in durations:
+            for hk in hists:
+                if not thorough and T == 3000 and hk in ('alternate', 'random'):
+                    continue
+                n = min(T + 5, 3200 if not thorough else 30100)
+                hist = adapt.history(hk, n, rng)
+                desc = dict(proposal=name, adaptation_duration=T, history=hk, steps=n, matrix_variant=True)
+                fail = [None]
+
+                def on_mstep(kind, b, a, info):
+                    out.evaluations += 1
+                    if info['error'] is not None:
+                        if fail[0] is None:
+                            fail[0] = 'update %d raised %r' % (info['i'] + 1, info['error'])
+                        return
+                    if fail[0] is None:
+                        bad = madmissible(kind, a)
+                        if bad:
+                            fail[0] = 'after update %d: %s' % (info['i'] + 1, bad)
+                    if info['called'] and info['i'] % 7 == 0:
+                        mterms.append(adaptm.coq_case(kind, b, a, info['ar'], info['ars'], info['x']))
+                        mmeta.append(dict(desc, step=info['i']))
+                adaptm.drive(name, T, 1, 1, hist, hk, rng, on_mstep)
+                out.count('matrix_history_' + hk)
+                if hk in ('always', 'never') and T >= 300:
+                    out.nontrivial.add(repr(desc))
+                if fail[0]:
+                    out.violations.append(dict(what='%s, history %s, duration %d: %s' % (name, hk, T, fail[0]), replay=desc))
+    failing = core.run_coq_cases('C14', adaptm.HEADER, mterms, eval_fn='mfailing', per_file=600, tag='matrix')
+    for f in failing[:10]:
+        out.corr_failures.append(dict(note='AdaptM model and real _update disagree', case=mmeta[f[0]]))
+    out.count('coq_cases_matrix', len(mterms))
     # (b) real chains: draws per jump
     nreal = 0
     for name in names:
